@@ -114,9 +114,10 @@ type e3probe struct {
 	Rebuilt bool   `json:"rebuilt"`
 	Probe   string `json:"probe"`
 	Class   string `json:"class"`
-	Pool    string `json:"pool"`  // what AddTx said
-	Block   string `json:"block"` // where the block decision fell
-	Bad     string `json:"bad"`   // non-empty: the re-use was committed (chain scan)
+	Pool    string `json:"pool"`    // what AddTx said
+	Block   string `json:"block"`   // where the block decision fell
+	Bad     string `json:"bad"`     // non-empty: the re-use was committed (chain scan)
+	SeqLag  int64  `json:"seq_lag"` // observation only (crash consistency of the output index is C13's subject): outputs of the served chain missing from the node's global output index
 }
 
 type e3result struct {
@@ -267,6 +268,9 @@ func runE3Case(cat *catalogue, cs e3case) e3result {
 					break // the node does not start on this crash state (crash consistency in general: C13); same for every probe
 				}
 				p.Height, p.Rebuilt = rc.Height(), rc.RebuiltStatus
+				if p.Height == hCrash {
+					p.SeqLag = ref.MaxUtxoOutputSeq() - rc.MaxUtxoOutputSeq()
+				}
 				e3offer(cat, rc, probe, &p)
 				res.Probes = append(res.Probes, p)
 				rc.Close()
@@ -297,7 +301,7 @@ func e3offer(cat *catalogue, rc *minichain.Chain, probe string, p *e3probe) {
 	var vb *types.Block
 	var vparts *types.PartSet
 	if perr := catchErr(func() error {
-		vb, vparts, p.Block = offerBlock(rc, rc, decodeAll([]*txInfo{ti}), false)
+		vb, vparts, p.Block, _ = offerBlock(rc, rc, decodeAll([]*txInfo{ti}), false)
 		return nil
 	}); perr != nil {
 		p.Block = perr.Error()
@@ -358,7 +362,15 @@ func runE3(r *vk.Run) *e3stats {
 		cs := cases[i]
 		boots := map[string]int{}
 		windows := map[string]int{}
+		lag := map[string]int{}
 		served := 0
+		// a re-use that is accepted even after a clean shutdown has nothing to do with the crash: one root cause, one key
+		cleanToo := map[bool]bool{}
+		for _, p := range res.Probes {
+			if p.Bad != "" && p.Window == "clean-shutdown-after-commit" {
+				cleanToo[isNonceClass(p.Class)] = true
+			}
+		}
 		for _, p := range res.Probes {
 			st.probes++
 			if p.Boot != "" {
@@ -371,15 +383,22 @@ func runE3(r *vk.Run) *e3stats {
 				continue
 			}
 			windows[p.Window]++
+			if p.SeqLag != 0 {
+				lag[fmt.Sprintf("%s: %d outputs missing", p.Window, p.SeqLag)]++
+			}
 			oc := fmt.Sprintf("%s/%s/pool:%v/block:%s", p.Window, orNone(p.Class), p.Pool == "pooled", p.Block)
 			st.outcomes[oc]++
 			if p.Class != "" {
 				served++
 			}
 			if p.Bad != "" {
-				key := "restart-forgets-consumed-input:" + p.Window
-				if strings.HasPrefix(p.Class, "nonce") || strings.HasPrefix(p.Class, "account") {
-					key = "restart-forgets-executed-nonce:" + p.Window
+				win := p.Window
+				if cleanToo[isNonceClass(p.Class)] {
+					win = "clean-restart"
+				}
+				key := "restart-forgets-consumed-input:" + win
+				if isNonceClass(p.Class) {
+					key = "restart-forgets-executed-nonce:" + win
 				}
 				r.Violation(key, fmt.Sprintf("history %s, crash after %d of %d write units of the last commit (%s; undo log %s): the restarted node serves block %d, yet %s (%s) is accepted again (mempool: %s; block: %s): %s",
 					cs.Name, p.Cut, len(res.Units), p.Window, p.Wal, p.Height, p.Probe, p.Class, p.Pool, p.Block, p.Bad),
@@ -392,11 +411,16 @@ func runE3(r *vk.Run) *e3stats {
 		st.crashStates += res.Cuts
 		st.restarts += res.Restarts
 		per = append(per, map[string]interface{}{"history": cs.Name, "write_units_of_commit": res.Units, "crash_prefixes": res.Cuts, "restarts": res.Restarts,
-			"probes": len(res.Probes), "probes_offering_a_consumed_input": served, "restart_failures": boots, "probes_per_window": windows})
+			"probes": len(res.Probes), "probes_offering_a_consumed_input": served, "restart_failures": boots, "probes_per_window": windows,
+			"observation_output_index_lag_after_restart": lag})
 		fmt.Printf("E3 %-22s units=%d prefixes=%d restarts=%d probes=%d re-use-probes=%d boot-failures=%d\n", cs.Name, len(res.Units), res.Cuts, res.Restarts, len(res.Probes), served, len(boots))
 	}
 	st.cov = per
 	return st
+}
+
+func isNonceClass(c string) bool {
+	return strings.HasPrefix(c, "nonce") || strings.HasPrefix(c, "account")
 }
 
 func orNone(s string) string {
